@@ -1324,7 +1324,18 @@ impl<'l> CelCompiler<'l> {
                             let mut tok = StringTokenizer::with_input(&e);
                             let mut comp = CelCompiler::with_tokenizer(&mut tok);
 
-                            let (e, _) = comp.parse_expression()?;
+                            // the sub-tokenizer's locations are relative to the placeholder
+                            // text: report the f-string token's own position instead
+                            let (e, _) = comp.parse_expression().map_err(|err| match err {
+                                CelError::Syntax(s) => {
+                                    let mut n = SyntaxError::from_location(loc.start());
+                                    if let Some(m) = s.message() {
+                                        n = n.with_message(m.to_string());
+                                    }
+                                    CelError::Syntax(n)
+                                }
+                                other => other,
+                            })?;
                             details.union_from(e.details().clone());
 
                             bytecode.push(
